@@ -14,7 +14,9 @@ A *scenario* (the case JSON, self-contained) is
    "src_cls"/"dst_cls": "local"|"base",  "req": [token...], "shallow", "verify", "dix", "six",
    "rounds": [{"fails": [token...], "partial": [token...], "crash": n|null, "reset": bool,
                "delete": [token...], "req": [token...]}]}
-   (further optional keys: "jobs": null|1|2|4 (default 1), "hardlink": bool, "fail_kind": "eio"|"eperm"|"eexist",
+   (further optional keys: "jobs": null|1|2|4 (default 1), "hardlink": bool, "fail_kind": "eio"|"eperm"|"eexist-honest" (the object is placed, THEN FileExistsError is raised)|"eexist"
+    (raised without the object: contract-violating, observation only), "observation": name - the scenario is run
+    UNJUDGED and recorded in coverage.observations,
     "dst_unprot": [token...] objects of "dst" left unprotected (0o644), "dst_junk": [[token, name, hex]...] stray
     files <first 2 chars of token's id>/<name>, "dst_dir_at": [token...] a DIRECTORY at the object's path,
     "dix_init": {"dirs": [...], "files": [...]} destination index pre-seeded, "plain_dst": true destination on a
@@ -117,6 +119,7 @@ def faultfs_class():
             oid = rec.oid_of(rpath)
             rec.calls += 1
             partial = False
+            placed = False
             try:
                 if oid in rec.fails:
                     if oid in rec.partial:
@@ -137,12 +140,17 @@ def faultfs_class():
                             partial = True
                     if rec.eperm or rec.kind == "eperm":
                         raise PermissionError(13, "injected upload failure")
+                    if rec.kind == "eexist-honest":
+                        # honours the exception's contract: the genuine object IS under the final name
+                        super().put_file(lpath, rpath, callback=callback, **kwargs)
+                        placed = True
+                        raise FileExistsError(17, "the object is already there")
                     if rec.kind == "eexist":
                         raise FileExistsError(17, "injected upload failure")
                     raise OSError(5, "injected upload failure")
                 super().put_file(lpath, rpath, callback=callback, **kwargs)
             except Exception:
-                rec.attempt(oid, False, partial)
+                rec.attempt(oid, placed, partial)
                 if rec.crash is not None and rec.calls >= rec.crash:
                     rec.aborted = True
                     raise Abort from None
@@ -956,89 +964,35 @@ def features(S):
 
 
 # --------------------------------------------------------------------------------------
-# findings protocol + input dimensions
-
-# behaviours of the REAL code that violate C04/C11 on an input dimension outside the model, found by
-# the coverage audit and waiting for the lead's decision (fix / known finding).  Failures with one of
-# these signatures are collected in the evidence (coverage.pending_findings), not raised.
-PENDING_FINDINGS = {
-    "C11:transferred-but-absent:first-upload-FileExistsError-swallowed":
-        "dvc_objects.fs.generic.transfer ignores a FileExistsError raised by the FIRST upload of a batch "
-        "('already exists, skipping'): the object is absent, not failed, and is reported transferred",
-    "C04:open-directory:first-upload-FileExistsError-swallowed":
-        "same mechanism: the swallowed first upload is not counted as a failure, so the directory object is "
-        "uploaded although the file did not arrive",
-    "C04:not-withheld:first-upload-FileExistsError-swallowed":
-        "same mechanism, seen at the end of the round: directory object delivered without the listed file",
-    "C11:transferred-but-absent:directory-at-object-path-FileExistsError-swallowed":
-        "hardlink=True, a DIRECTORY sits at the object's destination path: os.link raises FileExistsError, "
-        "generic.transfer takes it for 'already there' (for every file in link mode): reported transferred, absent",
-    "C04:open-directory:directory-at-object-path-FileExistsError-swallowed":
-        "same mechanism: the directory object is delivered although the obstructed file did not arrive",
-    "C04:not-withheld:directory-at-object-path-FileExistsError-swallowed":
-        "same mechanism, end of round",
-    "C11:transferred-corrupt:hardlinked-protected-source-trusted-by-mode":
-        "hardlink=True, verify=True, LocalHashFileDB destination: the link shares the source's 0o444 mode, "
-        "LocalHashFileDB.check trusts it by mode and never re-hashes: a corrupt object passes verification",
-    "C04:open-directory:mixed-hash-names":
-        "a request naming some listed files with hash name md5-dos2unix (store hash_name md5): those HashInfos do "
-        "not equal the tree's md5 entries, the files are not bound to their directory and are uploaded AFTER the "
-        "directory object",
-    "C04:not-withheld:mixed-hash-names": "same mechanism: a failure of such a file leaves the directory delivered",
-    "C11:not-a-partition:mixed-hash-names":
-        "same request: failed ids are built with the store's hash name, so status.new - failed does not remove them",
-    "C11:transferred-but-absent:mixed-hash-names": "same mechanism: the failed id stays in transferred",
-}
-
-
-_SWALLOW = ("C04:open-directory", "C04:not-withheld", "C11:transferred-but-absent")
-
-
-def classify(S, problems):
-    """give failures that stem from a known mechanism on a dimension outside the model their own
-    stable signature (see PENDING_FINDINGS)"""
-    case = S.case
-    out = []
-    first_eexist = case.get("fail_kind") == "eexist" and any(
-        e[0] == "put" and not e[2] and pos == 1
-        for ob in S.rounds for e, (_b, pos) in zip([x for x in ob["events"] if x[0] in ("put", "partial")],
-                                                   ob.get("positions") or []))
-    for sig, what in problems:
-        if sig == "C11:transferred-but-absent:other" and (first_eexist or case.get("req_names") or (
-                case.get("dst_dir_at") and case.get("plain_dst") and case.get("hardlink"))):
-            sig = "C11:transferred-but-absent"  # the mechanism is known: it names the class instead of "other"
-        if first_eexist and sig in _SWALLOW:
-            sig += ":first-upload-FileExistsError-swallowed"
-        elif case.get("dst_dir_at") and case.get("plain_dst") and case.get("hardlink") and sig in _SWALLOW:
-            sig += ":directory-at-object-path-FileExistsError-swallowed"
-        elif case.get("req_names") and sig.startswith(("C04:", "C11:")):
-            sig += ":mixed-hash-names"
-        elif sig == "C11:transferred-corrupt" and case.get("plain_dst") and case.get("hardlink") \
-                and case["dst_cls"] == "local":
-            sig += ":hardlinked-protected-source-trusted-by-mode"
-        out.append((sig, what))
-    return out
-
+# reporting, observations, input dimensions
 
 def report(ctx, problems, case):
-    """route oracle failures: pending findings are collected in the evidence, everything else is a
-    violation.  Returns the problems that were raised."""
-    raised = []
+    """every oracle failure is a violation (inputs the check does not judge are not generated as judged:
+    they run as OBSERVATIONS, see observe())"""
     for sig, what in problems:
-        if sig in PENDING_FINDINGS:
-            lst = ctx.extra.setdefault("pending_findings", [])
-            for e in lst:
-                if e["signature"] == sig:
-                    e["count"] += 1
-                    break
-            else:
-                lst.append({"signature": sig, "description": PENDING_FINDINGS[sig], "what": what,
-                            "case": case, "count": 1})
-            ctx.count("pending-finding:" + sig)
+        ctx.oracle_fail(sig, what, case)
+    return list(problems)
+
+
+def observe(ctx, S, name, static):
+    """an UNJUDGED run: record what the real code did on this input (evidence: coverage.observations)"""
+    parts = []
+    for ri, ob in enumerate(S.rounds):
+        oc = ob["outcome"]
+        if oc[0] == "ok":
+            res = "transferred=%s failed=%s" % (sorted(S.tok.get(o, o) for o in oc[1]), sorted(S.tok.get(o, o) for o in oc[2]))
+        elif oc[0] == "err":
+            res = "raised " + oc[2]
         else:
-            ctx.oracle_fail(sig, what, case)
-            raised.append((sig, what))
-    return raised
+            res = "aborted"
+        od = open_dirs(ob["dst_after"])
+        parts.append("round %d: %s; destination afterwards %s%s" % (
+            ri, res, sorted(S.tok.get(o, o) for o in ob["dst_after"]),
+            "; directory object %s present without %s" % (S.tok.get(od[0][0]), [S.tok.get(f, f) for f in od[0][1]]) if od else ""))
+    ctx.extra.setdefault("observations", []).append(
+        {"name": name, "what the real code did": static + " Observed: " + " | ".join(parts), "case": S.case})
+    count_dims(ctx, {"observation:" + name})
+    ctx.count("observation:" + name)
 
 
 NOTE_DIMS = {"chain": "stream:sharing-chain", "history": "stream:multi-round-history", "corpus": "stream:fixed-corpus"}
